@@ -178,8 +178,10 @@ CHECKS = {
               "the level-sum difference at the highest level where they differ; equal_of_no_difference; shadow_objective_dominates / "
               "configurator_objective_lex — for EVERY priority input the objective in key form (C13's shadowSpec over [default "
               "priorities, user priorities]; key = (row, magnitude)) passes that certificate, hence ranks any two 0/1 "
-              "configurations by user priority magnitude, then the non-default branch, then every other column (level_order). "
-              "Certificate tie: the "
+              "configurations by user priority magnitude, then the non-default branch, then every other column (level_order); "
+              "evalPt_mkCcAny / evalPt_mkCcXor — the default restructuring never changes what a rule means: cc.Any is true iff at "
+              "least one, cc.Xor iff exactly one alternative is true, whatever the default (defaults enter the objective only, not "
+              "the feasible set). Certificate tie: the "
               "Lean driver evaluates the certificate on every objective vector the real select() hands to the solver, with "
               "levels = user priority magnitudes above default magnitude 2 (non-default branch) above default magnitude 1. "
               "Equality ties: structure after the default restructuring (cc_build), default_prios, and the objective vector "
